@@ -146,6 +146,21 @@ def _paths(c):
             import shutil
             shutil.rmtree(d, ignore_errors=True)
 
+    def geo(kind):
+        from pyunicorn.core import GeoGrid, GeoNetwork
+        lat = np.linspace(-60.0, 75.0, n) if n > 1 else np.array([10.0])
+        lon = np.linspace(-150.0, 170.0, n) if n > 1 else np.array([20.0])
+        grid = GeoGrid(np.arange(3.0), lat, lon, silence_level=3)
+        if kind == "geo_switch_irrigation":
+            net = GeoNetwork(grid, adjacency=A.copy(), directed=directed, node_weight_type="surface", silence_level=3)
+            net.set_node_weight_type("irrigation")
+        else:
+            net = GeoNetwork(grid, adjacency=A.copy(), directed=directed,
+                             node_weight_type=kind[len("geo_"):], silence_level=3)
+        return finish(net)
+
+    for kind in ("geo_surface", "geo_irrigation", "geo_switch_irrigation"):
+        paths[kind] = lambda kind=kind: geo(kind)
     paths["geo_none.graphml"] = lambda: spatial("geo_none", "graphml")
     paths["geo_set.graphml"] = lambda: spatial("geo_set", "graphml")
     paths["geo_set.pickle"] = lambda: spatial("geo_set", "pickle")
@@ -170,6 +185,9 @@ def _observe(net, c):
     o["graph_n"] = int(net.graph.vcount())
     o["w4"] = [enc.num(v, 4) for v in net.node_weights]
     o["total4"] = enc.num(net.total_node_weight, 4)
+    o["wfine"] = [enc.num(v, 10**4) for v in net.node_weights]       # the same in units of 10^-4
+    o["totalfine"] = enc.num(net.total_node_weight, 10**4)
+    o["meanfine"] = enc.num(net.mean_node_weight, 10**4)
     o["mean6"] = enc.num(net.mean_node_weight)
     try:
         o["la"] = enc.ints(np.rint(net.link_attribute("w")).astype(int)) if c["hasla"] else []
